@@ -1713,6 +1713,13 @@ func generate(repo, out string) error {
 	if err := writeIfChanged(filepath.Join(out, "Murmur.lean"), mm); err != nil {
 		return err
 	}
+	lp, err := genLoops(repo)
+	if err != nil {
+		return err
+	}
+	if err := writeIfChanged(filepath.Join(out, "Loops.lean"), lp); err != nil {
+		return err
+	}
 	_ = os.Stdout
 	return nil
 }
